@@ -16,6 +16,10 @@ pub enum Kind {
     Exact,
     /// finite floats of wildly mixed magnitude and sign
     General,
+    /// general floats with a few NaN / +Inf / -Inf / zero entries: the threaded product must fall in the
+    /// same class (NaN, +Inf, -Inf, finite) as the sequential one — that class does not depend on the
+    /// partition or the order of additions
+    Special,
 }
 
 #[derive(Clone, Debug)]
@@ -130,6 +134,26 @@ fn gen_data(kind: Kind, data_seed: u64, len: usize) -> (Vec<f64>, Vec<f64>) {
     match kind {
         Kind::Exact => gen_exact(&mut drng, len),
         Kind::General => gen_general(&mut drng, len),
+        Kind::Special => {
+            let (mut v, mut w) = gen_general(&mut drng, len);
+            if len > 0 {
+                for _ in 0..drng.urange(1, 3) {
+                    let i = drng.usize_below(len);
+                    let special = *drng.pick(&[f64::NAN, f64::INFINITY, f64::NEG_INFINITY, 0.0]);
+                    if drng.chance(0.5) {
+                        v[i] = special;
+                    } else {
+                        w[i] = special;
+                    }
+                    if drng.chance(0.3) {
+                        // the partner is zero: inf * 0 = NaN
+                        let j = drng.usize_below(len);
+                        v[j] = 0.0;
+                    }
+                }
+            }
+            (v, w)
+        }
     }
 }
 
@@ -230,7 +254,7 @@ fn regenerated(v: &Value) -> Option<(Vec<f64>, Vec<f64>)> {
     let seed: u64 = g["seed"].as_str()?.parse().ok()?;
     let gen_len = g["generated_len"].as_u64()? as usize;
     let n = g["truncated_to"].as_u64()? as usize;
-    let kind = if v["kind"].as_str() == Some("general") { Kind::General } else { Kind::Exact };
+    let kind = match v["kind"].as_str() { Some("general") => Kind::General, Some("special") => Kind::Special, _ => Kind::Exact };
     let (mut a, mut b) = gen_data(kind, seed, gen_len);
     a.truncate(n);
     b.truncate(n);
@@ -262,6 +286,8 @@ fn mutated_value(x: f64) -> f64 {
 fn canon(x: f64) -> u64 {
     // bit-identical means bit-identical: -0.0 is not +0.0 (the sequential product folds from +0.0
     // and can never return -0.0)
+    // (one NaN is as good as another: which payload survives a sum of several NaNs is not a "result")
+    if x.is_nan() { return f64::NAN.to_bits(); }
     x.to_bits()
 }
 
@@ -440,13 +466,14 @@ impl Prop for C16 {
                     }
                 }
             };
-            (len, cpus, if rng.chance(0.5) { Kind::Exact } else { Kind::General })
+            (len, cpus, match rng.below(20) { 0..=8 => Kind::Exact, 9..=17 => Kind::General, _ => Kind::Special })
         };
         let data_seed = rng.next_u64();
         let (v, w) = gen_data(kind, data_seed, len);
         let mut prng = rng.fork(2);
         let n_probes = if len <= 64 { 3 } else { 2 };
-        let probes = gen_probes(&mut prng, len, cpus, n_probes);
+        // (a basis probe multiplies every other entry by zero: meaningless when entries may be NaN or Inf)
+        let probes = if kind == Kind::Special { vec![] } else { gen_probes(&mut prng, len, cpus, n_probes) };
         let mut srng = rng.fork(3);
         let k = match tier {
             Tier::Quick => 3,
@@ -579,6 +606,17 @@ impl Prop for C16 {
                         );
                     }
                 }
+                Kind::Special => {
+                    let class = |x: f64| if x.is_nan() { 0 } else if x == f64::INFINITY { 1 } else if x == f64::NEG_INFINITY { 2 } else { 3 };
+                    stats.count("probe.special_values_checked");
+                    if class(o.r1) != class(o.seq) || class(o.r2) != class(o.seq) || (class(o.seq) == 3 && !((o.r1 - o.seq).abs() <= 2.0 * bound)) {
+                        return violation(
+                            "value-mismatch",
+                            "dot_f64:special-values",
+                            format!("len={len} cpus={cpus} schedule#{k}: data with NaN/Inf/zero entries: dot_f64 = {:e}, sequential dot = {:e}", o.r1, o.seq),
+                        );
+                    }
+                }
                 Kind::General => {
                     if !((o.r1 - s2).abs() <= bound) {
                         return violation(
@@ -644,6 +682,10 @@ impl Prop for C16 {
                         let (s4, a4) = dot2(&case.v, &case.v);
                         (o.self_dot - s4).abs() <= gamma * a4 + f64::MIN_POSITIVE
                     }
+                    Kind::Special => {
+                        let s4 = Vector::<f64>::create(case.v.clone()).dot(&Vector::<f64>::create(case.v.clone()));
+                        (o.self_dot.is_nan() && s4.is_nan()) || o.self_dot == s4 || (s4.is_finite() && o.self_dot.is_finite())
+                    }
                 };
                 if !ok {
                     return violation("value-mismatch", "dot_f64:self-product", format!("len={len} cpus={cpus} schedule#{k}: v.dot_f64(&v) = {:e} ({:016x}), sequential v.dot(&v) = {:e}", o.self_dot, o.self_dot.to_bits(), Vector::<f64>::create(case.v.clone()).dot(&Vector::<f64>::create(case.v.clone()))));
@@ -664,6 +706,7 @@ impl Prop for C16 {
                         let (s3, a3) = dot2(&v2, &case.w);
                         (m1 - s3).abs() <= gamma * a3 + f64::MIN_POSITIVE
                     }
+                    Kind::Special => (m1.is_nan() && mseq.is_nan()) || m1 == mseq || (m1.is_finite() && mseq.is_finite()),
                 };
                 if !ok {
                     return violation(
@@ -677,7 +720,7 @@ impl Prop for C16 {
             // oracle (b1): repeated call inside one execution
             // (under an alternating CPU count the two calls legitimately use different partitions: on inexact
             // data they may then differ by reassociation, on exact data they still may not)
-            if o.r1.to_bits() != o.r2.to_bits() && !(case.cpu_flip.is_some() && case.kind == Kind::General) {
+            if canon(o.r1) != canon(o.r2) && !(case.cpu_flip.is_some() && case.kind != Kind::Exact) {
                 return violation(
                     "schedule-dependence",
                     "dot_f64:repeat",
@@ -836,7 +879,7 @@ impl Prop for C16 {
         json!({
             "len": case.v.len(),
             "cpus": case.cpus,
-            "kind": match case.kind { Kind::Exact => "exact", Kind::General => "general" },
+            "kind": match case.kind { Kind::Exact => "exact", Kind::General => "general", Kind::Special => "special" },
             "v_bits": if big_generated(case) { Value::Null } else { f64s_hex(&case.v) },
             "w_bits": if big_generated(case) { Value::Null } else { f64s_hex(&case.w) },
             "data_generated": if big_generated(case) { json!({"seed": case.data_seed.to_string(), "generated_len": case.gen_len, "truncated_to": case.v.len(),
@@ -856,7 +899,7 @@ impl Prop for C16 {
     fn from_json(&self, v: &Value) -> Case {
         Case {
             cpus: usize_of(&v["cpus"]),
-            kind: if v["kind"].as_str() == Some("general") { Kind::General } else { Kind::Exact },
+            kind: match v["kind"].as_str() { Some("general") => Kind::General, Some("special") => Kind::Special, _ => Kind::Exact },
             data_seed: v["data_generated"]["seed"].as_str().and_then(|s| s.parse().ok()).unwrap_or(0),
             gen_len: v["data_generated"]["generated_len"].as_u64().unwrap_or(0) as usize,
             v: regenerated(v).map(|d| d.0).unwrap_or_else(|| hex_f64s(&v["v_bits"])),
